@@ -182,6 +182,9 @@ class Gen:
         h5_entry = "file" in entry and entry["file"][-1].endswith((".h5", ".hdf5"))
         opts = [False, True] if h5_entry else [r.random() < 0.3]
         case = {"opts": opts, "files": files, "dirs": [PREFIX[:i] for i in range(len(PREFIX))] + dirs, "cwd": cwd, "cwds": cwds, "entry": entry, "al": al, "shape": shape}
+        if not al and r.random() < 0.25:
+            case["entries"] = [entry, entry]
+            case["default_args"] = True
         case["names"] = names_of(case)
         return case
 
@@ -195,9 +198,10 @@ def names_of(case):
     for f in case["files"]:
         for c in (f.get("comps") or []) + (f.get("nets") or []) + ((f.get("emb") or {}).get("comps") or []):
             s.add(c["list"])
-    if "string" in case["entry"]:
-        for c in case["entry"]["string"]["comps"]:
-            s.add(c["list"])
+    for e in case.get("entries") or [case["entry"]]:
+        if "string" in e:
+            for c in e["string"]["comps"]:
+                s.add(c["list"])
     return sorted(s)
 
 
@@ -282,6 +286,23 @@ def fixed_cases(g):
                           {"path": ["lib", "net.nml.h5"], "kind": "h5", "nets": [C("networks", "h5net", 0)],
                            "emb": {"comps": [C("ion_channel", "k", 0)], "incs": [H("deep", "all2.xml")]}}] + lib,
                 "dirs": dirs, "cwd": ["w"], "cwds": [], "entry": {"file": ["top.xml"], "style": "abs"}, "al": [], "shape": "diamond"})
+    # call histories in ONE process with default arguments (no already_included passed), no file changed in between:
+    # every fixed graph above is read twice in a row ...
+    for k, c in enumerate(out):
+        if k <= 6 or c["entry"].get("file") == ["top.nml.h5"]:
+            c["entries"] = [c["entry"], c["entry"]]
+            c["default_args"] = True
+    # ... and two different entry files (and a string) that share an include are read one after the other
+    shared = [{"path": ["s", "lib.nml"], "kind": "xml", "comps": [C("cells", "x", 1), C("ComponentType", "ct", 2, "n"), C("networks", "nx", 3)],
+               "incs": [H("deep.xml")]},
+              {"path": ["s", "deep.xml"], "kind": "xml", "comps": [C("ion_channel", "k", 4)], "incs": []},
+              {"path": ["a.nml"], "kind": "xml", "comps": [C("cells", "a", 5)], "incs": [H("s", "lib.nml")]},
+              {"path": ["b.nml.h5"], "kind": "h5", "nets": [C("networks", "net0", 6)], "emb": {"comps": [C("cells", "b", 7)], "incs": [H("s", "lib.nml")]}}]
+    ents = [{"file": ["a.nml"], "style": "abs"}, {"file": ["b.nml.h5"], "style": "rel"},
+            {"string": {"comps": [C("cells", "s", 8)], "incs": [H("s", "lib.nml")]}, "base": [], "base_style": "abs"},
+            {"file": ["a.nml"], "style": "rel"}]
+    out.append({"files": shared, "dirs": [[], ["s"]], "cwd": [], "cwds": [], "entry": ents[0], "entries": ents, "default_args": True,
+                "al": [], "shape": "diamond"})
     for c in out:
         c["names"] = names_of(c)
         c["opts"] = [False, True]
@@ -488,17 +509,28 @@ def run(ck):
     ck.extra["member_lists_generated"] = len(INFO)
     ck.extra["member_lists_unusable"] = d["unusable"]
     g = Gen(ck.rng)
-    cases = fixed_cases(g) + [g.graph() for _ in range(ck.n(150, 1500))]
+    cases = fixed_cases(g) + [g.graph() for _ in range(ck.n(110, 1400))]
     results = []
     B = 250
     for i in range(0, len(cases), B):
         out = ck.impl("c06_impl.py", {"cases": cases[i:i + B], "recursion_limit": 400, "guard_s": 20}, timeout=1500)
         results += out["results"]
     # ---- correspondence: Coq computes the indices that differ
-    flat = []  # (case index, cwd, run, oracle)
-    for ci, (case, res) in enumerate(zip(cases, results)):
+    # a case with several "entries" is a history of calls in one process (default arguments, no list passed); each call is
+    # an evaluation of its own over the virtual case that has this entry
+    real_cases, real_results = cases, results
+    cases, flat = [], []  # (virtual case index, cwd, run, oracle)
+    for case, res in zip(real_cases, real_results):
+        ents = case.get("entries") or [case["entry"]]
+        base = len(cases)
+        for ent in ents:
+            vc = dict(case, entry=ent)
+            vc["names"] = case["names"]
+            cases.append(vc)
         for run_, orc in zip(res["runs"], res["oracles"]):
-            flat.append((ci, run_["cwd"], run_, orc))
+            flat.append((base + run_.get("ei", 0), run_["cwd"], run_, orc))
+            if len(ents) > 1:
+                ck.tally("history-call:%d" % run_.get("ei", 0))
     bad_harness = 0
     coqable = []
     for (ci, cwd, run_, orc) in flat:
@@ -560,9 +592,9 @@ def run(ck):
         if any(c["list"] == "networks" for f in case["files"] if f["kind"] == "xml" for c in f["comps"]):
             ck.tally("network-defined-in-included-xml")
     # cwd independence: runs of one graph from working directories where no href of a reachable file exists
-    for ci, (case, res) in enumerate(zip(cases, results)):
+    for ci, (case, res) in enumerate(zip(real_cases, real_results)):
         free = [(r["cwd"], r) for r, o in zip(res["runs"], res["oracles"])
-                if not o["href_exists_from_cwd"] and not ("string" in case["entry"] and case["entry"]["base"] is None)]
+                if r.get("ei", 0) == 0 and not o["href_exists_from_cwd"] and not ("string" in case["entry"] and case["entry"]["base"] is None)]
         pairs = [(a, b) for opt in (False, True) for a, b in zip([x for x in free if x[1]["opt"] == opt], [x for x in free if x[1]["opt"] == opt][1:])]
         for (c1, r1), (c2, r2) in pairs:
             ck.tally("cwd-pairs-compared")
@@ -572,10 +604,11 @@ def run(ck):
                 ck.witness("C06:cwd-dependent", "the result depends on the working directory although no href resolves from either",
                            input={"case": case, "cwds": [c1, c2]}, expected=a, observed=b)
     # optimized flag: same outcome, same files, same components per member list (as multisets)
-    for ci, (case, res) in enumerate(zip(cases, results)):
+    for ci, (case, res) in enumerate(zip(real_cases, real_results)):
         by = {}
         for r in res["runs"]:
-            by.setdefault(json.dumps(r["cwd"]), {})[r["opt"]] = r
+            if r.get("ei", 0) == 0:
+                by.setdefault(json.dumps(r["cwd"]), {})[r["opt"]] = r
         for k, d2 in by.items():
             if len(d2) == 2:
                 ck.tally("optimized-pairs-compared")
@@ -592,7 +625,7 @@ def run(ck):
                                input={"case": case, "cwd": a["cwd"], "opt": True},
                                expected={"outcome": a["outcome"], "lists": {n: v for n, v in a["lists"].items() if v}},
                                observed={"outcome": b["outcome"], "lists": {n: v for n, v in b["lists"].items() if v}})
-    ck.extra["graphs"] = len(cases)
+    ck.extra["graphs"] = len(real_cases)
     ck.extra["runs_outside_model"] = bad_harness
 
 
@@ -613,6 +646,8 @@ def replay(ck, data):
     cw = inp.get("cwds") or [inp.get("cwd", case["cwd"])]
     case["cwd"], case["cwds"] = cw[0], cw[1:]
     case["opts"] = [bool(inp["opt"])] if "opt" in inp else case.get("opts", [False])
+    if case.get("default_args"):
+        case["entries"] = [case["entry"], case["entry"]]  # the call and the same call again in one process
     out = ck.impl("c06_impl.py", {"cases": [case], "recursion_limit": 400, "guard_s": 20})
     res = out["results"][0]
     bad = []
